@@ -171,6 +171,16 @@ func main() {
 		os.Exit(cmdReplay(os.Args[2:]))
 	case "selftest":
 		os.Exit(cmdSelftest(os.Args[2:]))
+	case "jobs": // jobs <ID> [tier]: print the job names of a property
+		tier := "quick"
+		if len(os.Args) > 3 {
+			tier = os.Args[3]
+		}
+		if p := props[os.Args[2]]; p != nil {
+			for _, j := range p.Jobs(tier) {
+				fmt.Println(j.Name())
+			}
+		}
 	case "list":
 		for _, id := range propIDs() {
 			fmt.Println(id)
